@@ -30,10 +30,10 @@ type Reader struct {
 // the data with:
 //
 //	1: control byte
-//	9: maximum varint stream id
-//	9: maximum varint message id
-//	9: maximum varint data length
-const maxFrameOverhead = 1 + 9 + 9 + 9
+//	10: maximum varint stream id
+//	10: maximum varint message id
+//	10: maximum varint data length
+const maxFrameOverhead = 1 + 10 + 10 + 10
 
 // NewReader constructs a Reader to read Packets from the io.Reader.
 func NewReader(r io.Reader) *Reader {
@@ -98,6 +98,16 @@ func (r *Reader) ReadPacketUsing(buf []byte) (pkt Packet, err error) {
 			return Packet{}, drpc.ProtocolError.Wrap(err)
 
 		case !ok:
+			// r.curr begins at a frame boundary and does not contain a complete
+			// frame. the largest frame we can accept has MaximumBufferSize bytes
+			// of data plus maxFrameOverhead, so if we already have more than
+			// that buffered, more data will not help. checking only the unparsed
+			// data keeps the result independent of how the bytes were split into
+			// reads.
+			if len(r.curr)-maxFrameOverhead > r.opts.MaximumBufferSize {
+				return Packet{}, drpc.ProtocolError.New("data overflow")
+			}
+
 			// r.curr doesn't have enough data for a full frame, so prepend
 			// it to the read buffer if it is in the appropriate state.
 			if len(r.buf) == 0 {
@@ -120,10 +130,6 @@ func (r *Reader) ReadPacketUsing(buf []byte) (pkt Packet, err error) {
 				return Packet{}, drpc.ProtocolError.New("data overflow")
 			}
 			r.buf = r.buf[:ncap]
-
-			if len(r.buf)-maxFrameOverhead > r.opts.MaximumBufferSize {
-				return Packet{}, drpc.ProtocolError.New("data overflow")
-			}
 
 			r.curr = r.buf
 			continue
